@@ -13,10 +13,13 @@ from props.c24 import cell, amap, same
 RULE = ("(A) 1-8 library operations over 2-5 names incl. overwrite on/off, missing required parameters, rename onto existing, delete "
         "of unknown names, copy from a second library; (B) change_std_type between random types with random optional-parameter "
         "subsets on rows created from another type (columns present/absent); (C) every built-in line/trafo/trafo3w type plus random "
-        "types with all optional parameters distinctive. non-trivial = sequence with >= 3 ops, types with optional parameters")
+        "types with all optional parameters distinctive; (E) rename_std_type on nets whose elements carry the renamed type, another "
+        "type, no type, a dangling name or the future new name (75 % valid renames) and on the fuse library (no element table). "
+        "non-trivial = sequence with >= 3 ops, types with optional parameters, valid renames")
 ASSUMPTIONS = ["parameter dicts are compared by value (the library stores the caller's dict object; aliasing is not modelled)",
                "runpp is an oracle for the behavioural comparison (identical results demanded within 1e-9)"]
-TRUSTED = ["harness/vf/c24_kinds.py value canonicalisation", "python dict insertion order as observed"]
+TRUSTED = ["harness/vf/c24_kinds.py value canonicalisation", "python dict insertion order as observed",
+           "sentinel probe of the change_std_type write set (bool columns left out)"]
 
 ELS = {"line": (ck.LINE_STD, ck.LINE_REQ), "trafo": (ck.TRAFO_STD, ck.TRAFO_REQ + ["shift_degree"]),
        "trafo3w": (ck.T3_STD, ck.T3_REQ + ["shift_mv_degree", "shift_lv_degree"])}
@@ -283,6 +286,142 @@ def created_cases(ctx):
 
 
 # ------------------------------------------------------------------ (B) change_std_type
+def _written_probe(net, el, tn, t_new):
+    """which cells does change_std_type write?  every cell of row 0 gets a sentinel that no type parameter equals; the written
+    columns are those whose cell is no sentinel afterwards (bool columns cannot carry a sentinel: left out on both sides)"""
+    p = copy.deepcopy(net)
+    if tn not in p.std_types[el]:
+        pp.create_std_type(p, t_new, tn, el)
+    sent = {}
+    with warnings.catch_warnings():
+        warnings.simplefilter("ignore")
+        for c in p[el].columns:
+            k = p[el][c].dtype.kind
+            if c in ("name", "geo") or k == "b":
+                continue
+            v = -12345.0 if k in "fiu" else "SENTINEL"
+            try:
+                p[el].at[0, c] = v
+                sent[c] = v
+            except Exception:
+                pass
+        try:
+            pp.change_std_type(p, 0, tn, el)
+        except Exception:
+            return None
+    out = []
+    for c, v in sent.items():
+        now = p[el][c].values[0]
+        if isinstance(v, str):
+            if now != v:
+                out.append(c)
+        elif not (isinstance(now, (int, float, np.integer, np.floating)) and float(now) == v):
+            out.append(c)
+    boolcols = [c for c in p[el].columns if p[el][c].dtype.kind == "b"]
+    return None if any(c in t_new for c in boolcols) else out
+
+
+# ------------------------------------------------------------------ (E) rename_std_type and the element table
+def rename_cases(ctx):
+    rng = ctx.rng
+    terms, keep = [], []
+    for k in range(ctx.n(48, 800)):
+        el = rng.choice(["line", "trafo", "trafo3w", "line", "trafo", "fuse"])
+        if el == "fuse":
+            net = _empty()
+            names = ["F1", "F2", "F3"]
+            lib0 = {n: {"fuse_type": rng.choice(["gG", "aM"]), "i_rated_a": float(rng.choice([16, 25, 63]))} for n in names}
+            net.std_types["fuse"].clear(); net.std_types["fuse"].update(copy.deepcopy(lib0))
+            a_, b_ = rng.choice(names + ["ZZ"]), rng.choice(["XX", "XX", names[0]])
+            rows0 = None
+        else:
+            single, par, nodes = CREATE[el]
+            ts = {n: rand_type(rng, el) for n in rng.sample(NAMES, rng.randint(1, 3))}
+            v = next(iter(ts.values()))
+            for t in ts.values():
+                for kk in ("vn_hv_kv", "vn_mv_kv", "vn_lv_kv"):
+                    if kk in t:
+                        t[kk] = v[kk]
+            net = _net3(el, v)
+            net.std_types[el].clear()
+            for n, t in ts.items():
+                pp.create_std_type(net, t, n, el)
+            lib0 = copy.deepcopy(dict(net.std_types[el]))
+            try:
+                with warnings.catch_warnings():
+                    warnings.simplefilter("ignore")
+                    for _ in range(rng.randint(1, 4)):
+                        single(net, std_type=rng.choice(list(ts)), **nodes)
+            except Exception:
+                ctx.count("rename_skipped")
+                continue
+            # hand-made cells: no type, a dangling name, the future new name
+            for i in net[el].index:
+                r = rng.random()
+                if r < 0.15:
+                    net[el].at[i, "std_type"] = None
+                elif r < 0.3:
+                    net[el].at[i, "std_type"] = rng.choice(NAMES)
+            free = [n for n in NAMES if n not in ts]
+            a_ = rng.choice(list(ts)) if rng.random() < 0.75 else rng.choice(NAMES)
+            b_ = rng.choice(free) if free and rng.random() < 0.75 else rng.choice(NAMES)
+            rows0 = [ck.canon_cell(x) for x in net[el].std_type.values]
+        before = copy.deepcopy(net)
+        exc = None
+        try:
+            pp.rename_std_type(net, a_, b_, el)
+        except Exception as e:
+            exc = type(e).__name__
+        lib1 = dict(net.std_types[el])
+        rows1 = None if rows0 is None else [ck.canon_cell(x) for x in net[el].std_type.values]
+        case = {"el": el, "lib0": lib0, "rows": rows0, "old": a_, "new": b_}
+        valid = a_ in lib0 and b_ not in lib0
+        ctx.case(case, nontrivial=valid, sample=case if k < 2 else None)
+        ctx.count("rename_%s_%s" % (el if el == "fuse" else "table", "valid" if valid else "invalid"))
+        # ---- oracle (the property text): an accepted rename returns the data unchanged under the new name, the elements still
+        # refer to the same data, nothing else in the table changes; a rejected rename changes nothing
+        kind = "spec"     # (the KeyError of the fuse library, found here, is repaired in /repo)
+        if valid:
+            if exc is not None:
+                ctx.violation(kind, "rename_std_type(%s -> %s, %s) raises %s" % (a_, b_, el, exc), case)
+            elif lib1.get(b_) != lib0[a_] or a_ in lib1:
+                ctx.violation("spec", "renamed type is not returned unchanged under the new name", case)
+            if rows0 is not None and exc is None:
+                for i, (x, y) in enumerate(zip(rows0, rows1)):
+                    d0 = lib0.get(x) if x != b_ else None
+                    if x is not None and x != b_ and lib1.get(y) != d0:
+                        ctx.violation("spec", "row %d: std_type %r -> %r no longer names the same type data" % (i, x, y), case)
+                cols = [c for c in net[el].columns if c != "std_type"]
+                if not before[el][cols].equals(net[el][cols]):
+                    ctx.violation("spec", "rename_std_type changed other columns of the element table", case)
+        else:
+            if exc != "UserWarning" or lib1 != lib0 or rows1 != rows0:
+                ctx.violation("spec", "invalid rename_std_type(%s -> %s): raised %s, state changed: %s" % (a_, b_, exc, lib1 != lib0 or rows1 != rows0), case)
+        tab = "None" if rows0 is None else "(Some %s)" % cq.lst([amap({"std_type": x}) for x in rows0])
+        terms.append("run_rename %s %s %s %s %s" % (lib_term(lib0), tab, cq.s(a_), cq.s(b_), cq.lst([cq.s(n) for n in (a_, b_)])))
+        loads = []
+        for n in (a_, b_):
+            try:
+                loads.append([[kk, ck.canon_cell(v)] for kk, v in pp.load_std_type(net, n, el).items()])
+            except UserWarning:
+                loads.append(cq.Err("UserWarning"))
+        keep.append((case, canon_lib(lib1), rows1, exc, loads))
+    model = ctx.coq_eval("c25rn", "Base.QN C24.Model C25.Model", terms, shard=40)
+    for (case, lib1, rows1, exc, loads), (mlib, mrows, mexc, mloads) in zip(keep, model):
+        ctx.corr_checked += 1
+        ok = _eq_lib(lib1, model_lib_to_py(mlib)) and exc == mexc
+        ok = ok and ((rows1 is None and mrows is None) or (rows1 is not None and mrows is not None and len(rows1) == len(mrows)
+                                                          and all(same(x, y) for x, y in zip(rows1, mrows))))
+        for a, b in zip(loads, mloads):
+            if isinstance(a, cq.Err) or isinstance(b, cq.Err):
+                ok = ok and isinstance(a, cq.Err) and isinstance(b, cq.Err)
+            else:
+                ok = ok and _eq_lib([["x", a]], model_lib_to_py([["x", b]]))
+        if not ok:
+            ctx.disagreement("rename_std_type: impl lib %s rows %s exc %s; model lib %s rows %s exc %s" % (
+                str(lib1)[:200], rows1, exc, str(mlib)[:200], mrows, mexc), case)
+
+
 def change_cases(ctx):
     rng = ctx.rng
     terms, keep = [], []
@@ -324,6 +463,7 @@ def change_cases(ctx):
         cols = list(a[el].columns)
         r0 = {c: ck.canon_cell(a[el][c].values[0]) for c in cols}
         b = copy.deepcopy(a)
+        b0 = copy.deepcopy(a)
         pp.change_std_type(a, 0, tn, el)
         r1 = {c: ck.canon_cell(a[el][c].values[0]) for c in a[el].columns}
         case = {"el": el, "old": t_old, "new": t_new, "history": hist, "target_name": tn, "user_args": user, "columns": cols}
@@ -355,15 +495,29 @@ def change_cases(ctx):
             if _res_equal(a, b, el) is False:
                 ctx.violation("spec", "changed element and fresh element of the new type give different results", case)
         q = [c for c in cols if c not in ("name", "geo")]
-        terms.append("run_change %s %s %s %s %s" % (cq.lst([cq.s(c) for c in cols]), lib_term({tn: t_new}), cq.s(tn),
-                                                    amap({c: v for c, v in r0.items() if c not in ("name", "geo")}), cq.lst([cq.s(c) for c in q])))
-        keep.append((case, q, r1))
+        terms.append("run_change2 %s %s %s %s %s %s" % (cq.s(el), cq.lst([cq.s(c) for c in cols]), lib_term({tn: t_new}), cq.s(tn),
+                                                        amap({c: v for c, v in r0.items() if c not in ("name", "geo")}), cq.lst([cq.s(c) for c in q])))
+        keep.append((case, q, r1, _written_probe(b0, el, tn, t_new) if len(keep) % 2 == 0 else None, stale, rf))
     model = ctx.coq_eval("c25ch", "Base.QN C24.Model C25.Model", terms, shard=60)
-    for (case, q, r1), m in zip(keep, model):
+    for (case, q, r1, written, stale, rf), m in zip(keep, model):
         ctx.corr_checked += 1
-        bad = ["%s impl %r model %r" % (c, r1.get(c), v) for c, v in zip(q, m) if not same(v, r1.get(c))]
+        m_row, m_written, m_stale, m_tcols, m_fresh = m
+        bad = ["%s impl %r model %r" % (c, r1.get(c), v) for c, v in zip(q, m_row) if not same(v, r1.get(c))]
         if bad:
             ctx.disagreement("change_std_type row: " + "; ".join(bad)[:400], case)
+            continue
+        # the write set observed with sentinel values in every cell of the row
+        if written is not None and sorted(written) != sorted(set(m_written) - {"name", "geo"}):
+            ctx.disagreement("change_std_type write set: impl %s model %s" % (sorted(written), sorted(m_written)), case)
+            continue
+        # the stale columns observed against a really created fresh element = stale_cols of the model
+        if sorted(stale) != sorted(m_stale):
+            ctx.disagreement("change_std_type stale columns (vs fresh element): impl %s model %s" % (sorted(stale), sorted(m_stale)), case)
+            continue
+        badf = ["%s fresh impl %r model %r" % (c, rf.get(c), v) for c, v in zip(m_tcols, m_fresh) if c != "std_type" and not same(v, rf.get(c))]
+        if badf:
+            ctx.disagreement("fresh element of the new type: " + "; ".join(badf)[:400], case)
+        ctx.count("change_stale_%d" % min(len(m_stale), 3))
 
 
 # ------------------------------------------------------------------ (D) create_lines with a heterogeneous list of std types
@@ -418,6 +572,7 @@ def run(ctx):
     created_cases(ctx)
     change_cases(ctx)
     lines_list_cases(ctx)
+    rename_cases(ctx)
 
 
 def replay(ctx, rec):
